@@ -986,7 +986,7 @@ def witness_search(pid, new, tier, seed, replay_path):
     if not b:
         return None
     out = replay_path + '.witness'
-    depth, nrand, budget = (3, 4000, 40) if tier == 'quick' else (4, 40000, 400)
+    depth, nrand, budget = (3, 4000, 150) if tier == 'quick' else (4, 40000, 900)   # the wall-clock budget only matters on a loaded machine: the searches are bounded by their counts
     cmds = []
     if want_book:
         cmd = [b, 'search', '--prop', pid, '--depth', str(depth), '--seed', str(seed), '--random', str(nrand), '--len', '60', '--budget', str(budget), '--out', out]
